@@ -1,2 +1,3 @@
 import CoapVerif.Props.C19
 import CoapVerif.Props.C20
+import CoapVerif.Props.C07
